@@ -52,8 +52,11 @@ def obligations():
         it, rets, allp = _one_return(cls, "predict", keep)
         for st in rets:
             v = st.ret
-            good = (v[:1] == ("callres",) and v[2] == "np.argmax" and dict(v[4]).get("axis") == fx.C(1)
-                    and len(v[3]) == 1 and v[3][0][:1] == ("callres",) and v[3][0][2] == "self.predict_proba")
+            # np.argmax(P, axis=1), P.argmax(axis=1) and P.argmax(1) are one canonical term: method form, axis positional
+            callee = [e[6] for e in st.events if e[0] == "call" and e[1] == v[1]] if v[:1] == ("callres",) else []
+            recv = callee[0][1] if callee and isinstance(callee[0], tuple) and callee[0][0] == "attr" and callee[0][2] == "argmax" else None
+            good = (v[:1] == ("callres",) and v[2].endswith(".argmax") and v[3] == (fx.C(1),) and not v[4]
+                    and recv is not None and recv[:1] == ("callres",) and recv[2] == "self.predict_proba")
             ob(cls, "predict", "== argmax(predict_proba(X), axis=1)", good, {"ret": fx.show(v)})
             ob(cls, "predict", "check_is_fitted(self) first", _first_call_is_check_fitted(st))
         # score
@@ -85,7 +88,7 @@ def obligations():
         if v[2] == "pairwise_kernels":
             star = [x for k, x in v[4] if k is None]
             pattr = ("attr", SELF, "base_kernel_params")
-            want = ("ite", ("cmp", ("Is",), (pattr, fx.C(None))), ("callres", None, "dict", (), ()), pattr)
+            want = ("ite", ("cmp", ("Is",), (pattr, fx.C(None))), ("dict", ()), pattr)
             good = (v[3] == (("var", "X"), inp) and dict((k, x) for k, x in v[4] if k is not None).get("metric") == ("attr", SELF, "base_kernel")
                     and len(star) == 1 and fx.strip(star[0]) == want)
         else:
